@@ -25,6 +25,7 @@ THEOREMS = [
     "C05_no_silent_default_partial", "C05_union_outcomes", "C05_union_exceptions",
     "C05_union_rejects_garbage_partial", "C05_union_rejects_garbage_refuted", "C05_discr_partial",
     "C05_discr_nonmapping_refuted", "C05_discr_unhashable_refuted", "C05_discr_nofield",
+    "C05_discr_call_history_free", "C05_discr_history", "C05_discr_variant_outcome_propagates",
 ]
 
 UNION_MEMBERS = ["int", "float", "bool", "str", "None", "date", "UUID", "List[int]", "Dict[str, int]", "Inner",
@@ -161,6 +162,159 @@ def hooks_cases(ctx):
             ctx.count(("hooks", entry, summ, repr(d0)[:30]))
             cases.append(f"({cterm}, {G.enc(d0)}, {exp})")
             labels.append(f"P_hooks.{entry}({d0!r})")
+    return cases, labels
+
+
+# ---------------------------------------------------------------------------
+# discriminated hierarchies with call histories (lazy tag registry)
+# ---------------------------------------------------------------------------
+
+def _rename(term: str, h: dict) -> str:
+    """Outcomes of the twin hierarchy (classes T<idx>...) expressed with the names of the real one (H<idx>...)."""
+    return term.replace(f'"T{h["idx"]}', f'"H{h["idx"]}')
+
+
+def hier_entry(h, mod, prefix):
+    """A FRESH entry point (own, empty registry) for the hierarchy materialised under prefix."""
+    base = getattr(mod, f"{prefix}{h['idx']}")
+    fl = h["flavour"]
+    if fl == "config-mixin":
+        return base.from_dict, False
+    if fl == "config-codec":
+        return mod.BasicDecoder(base).decode, False
+    ann = typing.Annotated[base, mod.Discriminator(field=h["field"], include_subtypes=True)]
+    if fl == "annotated-codec":
+        return mod.BasicDecoder(ann).decode, False
+    holder = getattr(mod, f"{prefix}{h['idx']}Holder")
+    return (lambda d: holder.from_dict({"v": d})), True
+
+
+def unwrap_field(fn, d, wrapped):
+    """Outcome of the dispatch itself.  In the annotated-field flavour the holder turns every failure into
+    InvalidFieldValue('v', d, Holder) (checked here); the dispatch's own exception is its __context__."""
+    problems = []
+    try:
+        r = fn(d)
+        exc = None
+    except BaseException as e:  # noqa: BLE001
+        if isinstance(e, (KeyboardInterrupt, SystemExit, MemoryError)):
+            raise
+        r, exc = None, e
+    if wrapped:
+        if exc is None:
+            r = r.v
+        else:
+            if type(exc).__name__ != "InvalidFieldValue" or exc.field_name != "v" or exc.field_value is not d:
+                problems.append(f"holder raised {type(exc).__name__}({O._attrs(exc)}) instead of InvalidFieldValue('v', <input>, Holder)")
+            elif exc.__context__ is not None:
+                exc = exc.__context__
+    return r, exc, problems
+
+
+def outcome_term(r, exc, key_order=None) -> str:
+    if exc is not None:
+        return f"(Exn {G.enc_exn(exc, key_order)})"
+    return f"(Ok {enc_result(r)})"
+
+
+def hier_section(ctx, rng, n_hier: int):
+    """Oracle + correspondence for the family: the chosen variant's own decoding fails (or succeeds) on the first
+    call for a tag vs later calls, through Config discriminator (mixin, codec), Annotated discriminator (codec root,
+    holder field)."""
+    cases, labels = [], []
+    pm = G.prelude_module()
+    for k in range(n_hier):
+        h = G.gen_hierarchy(rng, k)
+        src_real, src_twin = G.hier_source(h, "H"), G.hier_source(h, "T")
+        exec(compile(src_real + src_twin, f"<c05 hier {k}>", "exec"), pm.__dict__)
+        fn, wrapped = hier_entry(h, pm, "H")
+        inputs = G.hier_inputs(rng, h)
+        walk = G.hier_walk(h)
+        ctx.hist("hier_flavour", h["flavour"])
+        vterms_tables = {i: [] for i in walk}
+        observed = []
+        schema = {"cls": f"H{h['idx']}", "source": src_real, "hier": h, "fields": [], "mixin": True, "forbid": False,
+                  "allow_nba": False, "discr": h["field"], "discr_keys": []}
+        for n, d in enumerate(inputs):
+            before = copy.deepcopy(d)
+            r, exc, problems = unwrap_field(fn, d, wrapped)
+            key_order = list(d.keys()) if isinstance(d, dict) else None
+            obs_term = outcome_term(r, exc, key_order)
+            observed.append(obs_term)
+            obs = f"{type(exc).__name__}({O._attrs(exc)})" if exc is not None else f"returned {r!r}"[:200]
+            ctx.count(("hier", h["flavour"], n == 0, type(exc).__name__ if exc else "ok"))
+            ctx.hist("hier_outcomes", ("first:" if n == 0 else "later:") + (type(exc).__name__ if exc else "ok"))
+            # -- expected, from the TWIN hierarchy (no shared registry / compiled state), history free
+            exp_term, exp_txt, kind = None, "", "discr-wrong-outcome"
+            if not O.is_mapping(d):
+                exp_txt = "ValueError"
+                if exc is not None and type(exc).__name__ == "TypeError":
+                    kind = "discriminator-nonmapping"
+                ok = exc is not None and type(exc).__name__ == "ValueError"
+            elif h["field"] not in d:
+                exp_txt = f"MissingDiscriminatorError({h['field']!r})"
+                ok = exc is not None and type(exc).__name__ == "MissingDiscriminatorError" and exc.field_name == h["field"]
+            elif not O._hashable(d[h["field"]]):
+                exp_txt = "SuitableVariantNotFoundError"
+                if exc is not None and type(exc).__name__ == "TypeError":
+                    kind = "discriminator-unhashable-tag"
+                ok = exc is not None and type(exc).__name__ == "SuitableVariantNotFoundError"
+            else:
+                tag = d[h["field"]]
+                owner = None
+                for i in walk:
+                    if type(tag) is str and h["classes"][i]["tag"] == tag:
+                        owner = i
+                if owner is None:
+                    exp_txt = "SuitableVariantNotFoundError"
+                    ok = exc is not None and type(exc).__name__ == "SuitableVariantNotFoundError"
+                else:
+                    tcls = getattr(pm, f"T{h['idx']}{h['classes'][owner]['suffix']}")
+                    dd = copy.deepcopy(d)
+                    try:
+                        tr, texc = pm.BasicDecoder(tcls).decode(dd), None
+                    except Exception as e:  # noqa: BLE001
+                        tr, texc = None, e
+                    exp_term = _rename(outcome_term(tr, texc, key_order), h)
+                    exp_txt = f"the variant's own outcome {type(texc).__name__ + '(' + O._attrs(texc) + ')' if texc else repr(tr)}"[:200]
+                    ok = exp_term == (_rename(obs_term, h) if dd == d else obs_term)
+                    if texc is not None and type(texc).__name__ == "InvalidFieldValue" and exc is not None and \
+                            type(exc).__name__ == "InvalidFieldValue" and ok:
+                        # the offending input OBJECT is reported (twin ran on a copy)
+                        m = getattr(exc, "field_name", None)
+                        if isinstance(d, dict) and m in d and exc.field_value is not d[m]:
+                            ok = False
+                            exp_txt += " with field_value being the input object"
+            fails = list(problems)
+            if not ok:
+                fails.append(f"call #{n + 1} on a fresh hierarchy ({h['flavour']}, {G.pyexpr(d)[:120]}): observed {obs}, "
+                             f"expected {exp_txt}")
+            if not O.deep_same(before, d):
+                fails.append(f"input object was modified: {before!r} -> {d!r}"[:300])
+                kind = "input-modified"
+            for what in fails:
+                ctx.fail(f"H{h['idx']}: {what}"[:500],
+                         {"entry": "hier:" + h["flavour"], "schema": schema, "prelude": "harness.props.c05_gen.PRELUDE",
+                          "input_expr": repr(inputs[:n + 1]), "observed": obs, "expected": exp_txt},
+                         {"kind": kind, "entry": h["flavour"], "first_call": n == 0})
+            # -- model tables: every variant's own decoder on this input (twin classes)
+            for i in walk:
+                tcls = getattr(pm, f"T{h['idx']}{h['classes'][i]['suffix']}")
+                dd = copy.deepcopy(d)
+                try:
+                    tr, texc = pm.BasicDecoder(tcls).decode(dd), None
+                except Exception as e:  # noqa: BLE001
+                    tr, texc = None, e
+                vterms_tables[i].append((G.enc(d), _rename(outcome_term(tr, texc, key_order), h)))
+        vterms = []
+        for i in walk:
+            c = h["classes"][i]
+            tagt = f"(Some {coq_str(c['tag'])})" if c["tag"] is not None else "None"
+            vterms.append(f"({tagt}, table_fun {table_term(vterms_tables[i])})")
+        cases.append(f"({coq_str(h['field'])}, {coq_list(vterms)}, {coq_list([G.enc(d) for d in inputs])}, {coq_list(observed)})")
+        labels.append(f"H{k} {h['flavour']} history {inputs!r}"[:200])
+        if k < 2:
+            ctx.sample({"hierarchy": src_real, "flavour": h["flavour"], "history": repr(inputs)[:300]}, limit=8)
     return cases, labels
 
 
@@ -441,7 +595,11 @@ def run(ctx: vlib.Ctx):
         "aliases, allow_deserialization_not_by_alias, forbid_extra_keys; mixin and plain) x (valid input, then a "
         "corruption stream: 1-3 junk fields, all fields junk, missing keys, nulls, extra keys, non-str keys, str for "
         "list, long tuple, name-vs-alias, non-mapping whole inputs, dict subclass / OrderedDict / MappingProxyType); "
-        "both entry points from_dict and BasicDecoder.decode; distinct = (schema shape, corruption kind, outcome class)")
+        "both entry points from_dict and BasicDecoder.decode; distinct = (schema shape, corruption kind, outcome class); "
+        "plus fresh discriminated hierarchies (1-4 variants, nested / untagged subclasses, attr or Literal-field tags, "
+        "forbid_extra_keys) x call histories of 2-4 inputs whose FIRST call often makes the chosen variant's own decoding "
+        "fail (missing required field, junk value, extra key), through Config discriminator (mixin, codec), Annotated "
+        "discriminator at a codec root and in a holder field")
     ctx.trusted += [
         "Errs.v: model of the generated from_dict body / union chain / discriminator dispatch (hand-written, compared "
         "with /repo by vm_compute on every run and by an AST shape check of every captured generated from_dict)",
@@ -450,6 +608,9 @@ def run(ctx: vlib.Ctx):
         "value[str] on non-mappings raises TypeError, registry[tag] on an unhashable tag raises TypeError",
         "harness/props/c05_gen.py, c05_oracle.py: schema materialiser, independent computation of nullable/ident/keys/"
         "defaults per field (DESIGN A.2), value and outcome encoders, reference acceptance predicate",
+        "discriminator registry: modelled as the lazily filled tag->variant map threaded through call histories "
+        "(Errs.discr_call / discr_history); variant tags are strings; registration order = iter_all_subclasses walk "
+        "(depth first, definition order) as computed by the harness; compared with /repo on fresh hierarchies per history",
         "per-field decoder behaviour is an uninterpreted function in every theorem; in correspondence cases it is the "
         "finite table obtained from the real BasicDecoder(field_type).decode",
     ]
@@ -605,6 +766,10 @@ def run(ctx: vlib.Ctx):
                 ucases.append(union_case(pm, ref, members, v))
                 ulabels.append(f"Union[{', '.join(members)}] <- {v!r}"[:120])
 
+        hic, hil = hier_section(ctx, rng, ctx.budget(120, 1500))
+        run_corr(ctx, "c05_discr_history", hic,
+                 "fun c => match c with (f, vs, ins, outs) => list_eqb res_eqb (discr_history f vs [] ins) outs end",
+                 "string * list variant * list pv * list (res pv)", hil)
         hc, hl = hooks_cases(ctx)
         run_corr(ctx, "c05_hooks", hc, "fun c => match c with (k, d, e) => res_eqb (from_dict k d) e end",
                  "cspec * pv * res pv", hl)
@@ -630,6 +795,24 @@ def _is_root_program(p: str, s: dict) -> bool:
 
 def replay(rep: dict) -> int:
     schema = rep["schema"]
+    if rep.get("entry", "").startswith("hier:"):
+        try:
+            h = schema["hier"]
+            pm = G.prelude_module()
+            exec(compile(G.hier_source(h, "H") + G.hier_source(h, "T"), "<c05 replay hier>", "exec"), pm.__dict__)
+            fn, wrapped = hier_entry(h, pm, "H")
+            history = eval(rep["input_expr"])
+            obs = ""
+            for d in history:
+                r, exc, problems = unwrap_field(fn, d, wrapped)
+                obs = f"{type(exc).__name__}({O._attrs(exc)})" if exc is not None else f"returned {r!r}"[:200]
+                print(f"  {h['flavour']} <- {d!r}: {obs}")
+            same = obs == rep.get("observed")
+            print("expected:", rep.get("expected"))
+            print("REPRODUCED" if same else "not reproduced (last outcome differs from the recorded one)")
+            return 1 if same else 0
+        finally:
+            G.cleanup_modules()
     if rep.get("entry", "").startswith("hostile:"):
         try:
             mod = G.build_module(schema, fresh_prelude=True)
